@@ -52,6 +52,8 @@ def enc_arg(a):
         return {"k": "proc", "name": a.name()}
     if isinstance(a, type):
         return {"k": "class", "name": a.__name__}
+    if type(a).__name__ == "ExoType":
+        return {"k": "exotype", "name": a.name}
     if hasattr(a, "has_field"):
         return {"k": "config", "name": a.name()}
     if isinstance(a, (list, tuple)):
@@ -94,6 +96,10 @@ def dec_arg(d, p: Procedure, env):
         return d["v"]
     if k == "invalid":
         return PC.InvalidCursor()
+    if k == "exotype":
+        from exo.API_types import ExoType
+
+        return ExoType[d["name"]]
     if k == "stdfn":
         import exo.stdlib.stdlib as _S
 
@@ -175,6 +181,33 @@ class LiveSet:
             if tree_fingerprint(p._loopir_proc) != self.fp[k] or str(p) != self.txt[k]:
                 out.append(k)
         return out
+
+
+_CALLEE_CACHE = {}
+
+
+def _callee_names(p_ir):
+    k = id(p_ir)
+    if k not in _CALLEE_CACHE:
+        from exo.core.LoopIR import LoopIR as _L
+
+        out = set()
+
+        def rec(stmts, depth=0):
+            for st in stmts:
+                if isinstance(st, _L.Call):
+                    if st.f.name not in out and depth < 4:
+                        out.add(st.f.name)
+                        rec(st.f.body, depth + 1)
+                for attr in ("body", "orelse"):
+                    if hasattr(st, attr):
+                        rec(getattr(st, attr), depth)
+
+        rec(p_ir.body)
+        if len(_CALLEE_CACHE) > 500:
+            _CALLEE_CACHE.clear()
+        _CALLEE_CACHE[k] = out
+    return _CALLEE_CACHE[k]
 
 
 class OpTimeout(Exception):
@@ -513,6 +546,16 @@ def sweep_seed(job):
 
 def _one_instance(ctx: ProcCtx, p, op, opname, args, props, live, rec, env, bounds, rng, tier):
     p_ir = p._loopir_proc
+    if "C07" in props:
+        # procedures alive before the call that the call can reach: the source, the procedures passed as
+        # arguments, the callees of the source (plus a rotating few of the other corpus sub-procedures)
+        argp = [a for a in args if isinstance(a, Procedure)] + [x for a in args if isinstance(a, list) for x in a if isinstance(x, Procedure)]
+        callee_names = _callee_names(p_ir)
+        rest = [lp for lp in live if lp is not p and lp not in argp]
+        near = [lp for lp in rest if lp.name() in callee_names]
+        far = [lp for lp in rest if lp.name() not in callee_names]
+        k0 = rng.randrange(len(far)) if far else 0
+        live = [p] + argp + near + (far[k0 : k0 + 3] if far else [])
     snap = LiveSet(live) if "C07" in props else None
     # cursors created before the call (C07: still denote the same nodes)
     pre_cursors = None
